@@ -165,6 +165,48 @@ class _NormaliseIf(ast.NodeTransformer):
         return node
 
 
+def _canonical_import_aliases(tree: ast.Module) -> ast.Module:
+    """`import pickle as pkl` at module level is analysed as `import pickle` (every `pkl` renamed back), provided neither
+    name is bound to anything else in the module.  Rules can then recognise a standard module by its real name."""
+    cands = {}
+    for st in tree.body:
+        if isinstance(st, ast.Import):
+            for a in st.names:
+                if a.asname and "." not in a.name and a.asname != a.name:
+                    cands[a.asname] = a.name
+    if not cands:
+        return tree
+    bound: Dict[str, int] = {}
+    for n in ast.walk(tree):
+        names = []
+        if isinstance(n, ast.Name) and isinstance(n.ctx, (ast.Store, ast.Del)):
+            names.append(n.id)
+        elif isinstance(n, (ast.FunctionDef, ast.AsyncFunctionDef, ast.ClassDef)):
+            names.append(n.name)
+        elif isinstance(n, ast.arg):
+            names.append(n.arg)
+        elif isinstance(n, (ast.Import, ast.ImportFrom)):
+            for a in n.names:
+                names.append((a.asname or a.name).split(".")[0])
+        elif isinstance(n, ast.ExceptHandler) and n.name:
+            names.append(n.name)
+        elif isinstance(n, (ast.Global, ast.Nonlocal)):
+            names.extend(n.names)
+        for x in names:
+            bound[x] = bound.get(x, 0) + 1
+    ren = {alias: real for alias, real in cands.items() if bound.get(alias, 0) == 1 and bound.get(real, 0) == 0}
+    if not ren:
+        return tree
+    for n in ast.walk(tree):
+        if isinstance(n, ast.Name) and n.id in ren:
+            n.id = ren[n.id]
+        elif isinstance(n, ast.Import):
+            for a in n.names:
+                if a.asname in ren and ren[a.asname] == a.name:
+                    a.asname = None
+    return tree
+
+
 @dataclass
 class FuncInfo:
     qualname: str
@@ -304,6 +346,165 @@ class Repo:
                             m.imports.setdefault(n, self.resolve_qual(f"{src}.{n}"))
         for c in self.classes.values():
             c.bases = [self.resolve_expr(c.module, b) or "?" for b in c.node.bases]
+        self.inlined: List[str] = []
+        self._inline_trivial_helpers()
+
+    # ------------------------------------------------------------------ helper inlining (spelling normalisation)
+    @staticmethod
+    def _strip_doc(body):
+        return body[1:] if body and isinstance(body[0], ast.Expr) and isinstance(body[0].value, ast.Constant) and isinstance(body[0].value.value, str) else body
+
+    @staticmethod
+    def _simple_arg(e: ast.AST) -> bool:
+        while isinstance(e, ast.Attribute):
+            e = e.value
+        return isinstance(e, (ast.Name, ast.Constant))
+
+    def _inline_trivial_helpers(self):
+        """'Extract method' undone before any rule looks at the code (semantics-preserving, one level deep):
+
+        * a call of a helper whose whole body is `return <expr>` (module-level function of the same module, or a method of
+          the same class called on self/cls), with plain names / attribute chains / constants as arguments, is replaced by
+          that expression with the parameters substituted;
+        * a statement `self.<m>()` where `<m>` takes nothing but self, returns nothing and defines nothing that clashes with
+          the caller's locals is replaced by the body of `<m>`.
+
+        The helpers themselves stay in the model and are analysed as functions of their own."""
+        import copy
+
+        def locals_of(fn_node) -> set:
+            out = {a.arg for a in ast.walk(fn_node.args) if isinstance(a, ast.arg)}
+            for n in ast.walk(fn_node):
+                if isinstance(n, ast.Name) and isinstance(n.ctx, (ast.Store, ast.Del)):
+                    out.add(n.id)
+            return out
+
+        def private(callee: Optional[FuncInfo]) -> bool:
+            # public functions are API: rules (and readers) know them by name; what 'extract method' produces is private
+            return callee is not None and callee.name.startswith("_") and not callee.name.startswith("__")
+
+        def expr_helper(callee: Optional[FuncInfo], is_method: bool):
+            if not private(callee):
+                return None
+            if callee is None or callee.kind not in ("function", "method", "staticmethod", "classmethod"):
+                return None
+            node = callee.node
+            if not isinstance(node, ast.FunctionDef) or node.decorator_list and callee.kind in ("function", "method"):
+                return None
+            a = node.args
+            if a.vararg or a.kwarg or a.kwonlyargs or a.defaults or a.posonlyargs:
+                return None
+            body = self._strip_doc(node.body)
+            if len(body) != 1 or not isinstance(body[0], ast.Return) or body[0].value is None:
+                return None
+            ex = body[0].value
+            if any(isinstance(x, (ast.Lambda, ast.ListComp, ast.SetComp, ast.DictComp, ast.GeneratorExp, ast.Yield, ast.YieldFrom, ast.Await, ast.NamedExpr)) for x in ast.walk(ex)):
+                return None
+            return [x.arg for x in a.args], ex
+
+        def stmt_helper(callee: Optional[FuncInfo]):
+            if not private(callee):
+                return None
+            if callee is None or callee.kind != "method":
+                return None
+            node = callee.node
+            if not isinstance(node, ast.FunctionDef) or node.decorator_list:
+                return None
+            a = node.args
+            if a.vararg or a.kwarg or a.kwonlyargs or a.defaults or a.posonlyargs or len(a.args) != 1:
+                return None
+            body = self._strip_doc(node.body)
+            if not body or any(isinstance(x, (ast.Return, ast.Yield, ast.YieldFrom, ast.Await, ast.FunctionDef, ast.AsyncFunctionDef, ast.ClassDef, ast.Lambda, ast.Global, ast.Nonlocal)) for st in body for x in ast.walk(st)):
+                return None
+            return a.args[0].arg, body
+
+        for f in list(self.functions.values()):
+            if f.kind in ("module", "lambda") or not isinstance(f.node, (ast.FunctionDef, ast.AsyncFunctionDef)):
+                continue
+            flocals = locals_of(f.node)
+
+            def resolve(call: ast.Call):
+                fn = call.func
+                if isinstance(fn, ast.Name) and fn.id not in flocals:
+                    lk = f.module.functions.get(fn.id)
+                    return (lk, False, None) if lk is not None and lk is not f else (None, False, None)
+                if isinstance(fn, ast.Attribute) and isinstance(fn.value, ast.Name) and fn.value.id in ("self", "cls") and f.cls is not None and f.params()[:1] == [fn.value.id]:
+                    # not overridden anywhere below the class that defines it
+                    m = self.find_method(f.cls, fn.attr)
+                    if m is None or m is f or m.kind in ("property", "setter"):
+                        return (None, True, None)
+                    if any(k is not m.cls and k.method(fn.attr) is not None for k in self.subclasses(m.cls)):
+                        return (None, True, None)
+                    return (m, True, fn.value)
+                return (None, False, None)
+
+            class Inl(ast.NodeTransformer):
+                def visit_FunctionDef(s, node):
+                    return node if node is not f.node else s.generic_visit(node)
+
+                visit_AsyncFunctionDef = visit_Lambda = visit_ClassDef = visit_FunctionDef
+
+                def visit_Call(s, node):
+                    s.generic_visit(node)
+                    if node.keywords or any(isinstance(x, ast.Starred) for x in node.args) or not all(Repo._simple_arg(x) for x in node.args):
+                        return node
+                    callee, is_m, recv = resolve(node)
+                    h = expr_helper(callee, is_m)
+                    if h is None:
+                        return node
+                    params, ex = h
+                    args = list(node.args)
+                    if is_m and callee.kind in ("method", "classmethod"):
+                        args = [recv] + args
+                    if len(params) != len(args):
+                        return node
+                    free = {x.id for x in ast.walk(ex) if isinstance(x, ast.Name)} - set(params)
+                    if free & flocals:
+                        return node
+                    sub = dict(zip(params, args))
+                    new = copy.deepcopy(ex)
+
+                    class Sub(ast.NodeTransformer):
+                        def visit_Name(s2, n):
+                            return copy.deepcopy(sub[n.id]) if n.id in sub and isinstance(n.ctx, ast.Load) else n
+
+                    new = Sub().visit(new)
+                    for x in ast.walk(new):
+                        if hasattr(x, "lineno"):
+                            x.lineno = node.lineno
+                    self.inlined.append(f"{f.qualname}: {callee.qualname}(...) -> expression")
+                    return ast.copy_location(new, node)
+
+            def inline_stmts(stmts):
+                out = []
+                for st in stmts:
+                    for fld in ("body", "orelse", "finalbody"):
+                        v = getattr(st, fld, None)
+                        if isinstance(v, list) and v and isinstance(v[0], ast.stmt) and not isinstance(st, (ast.FunctionDef, ast.AsyncFunctionDef, ast.ClassDef)):
+                            setattr(st, fld, inline_stmts(v))
+                    if isinstance(st, ast.Try):
+                        for h in st.handlers:
+                            h.body = inline_stmts(h.body)
+                    if isinstance(st, ast.Expr) and isinstance(st.value, ast.Call) and not st.value.args and not st.value.keywords:
+                        callee, is_m, recv = resolve(st.value)
+                        h = stmt_helper(callee) if is_m else None
+                        if h is not None:
+                            selfname, body = h
+                            hl = set()
+                            for b in body:
+                                for x in ast.walk(b):
+                                    if isinstance(x, ast.Name) and isinstance(x.ctx, (ast.Store, ast.Del)):
+                                        hl.add(x.id)
+                            if not (hl & flocals) and selfname == recv.id:
+                                self.inlined.append(f"{f.qualname}: self.{callee.name}() -> {len(body)} statement(s)")
+                                out.extend(copy.deepcopy(body))
+                                continue
+                    out.append(st)
+                return out
+
+            f.node.body = inline_stmts(f.node.body)
+            Inl().visit(f.node)
+            ast.fix_missing_locations(f.node)
 
     # ------------------------------------------------------------------ loading
     def _load(self, name: str, path: Path, is_pkg: bool):
@@ -314,6 +515,7 @@ class Repo:
             raise AnalysisError(f"cannot parse {path}: {e}")
         tree = _PruneVersion().visit(tree)
         tree = _NormaliseIf().visit(tree)
+        tree = _canonical_import_aliases(tree)
         ast.fix_missing_locations(tree)
         try:
             relpath = str(path.resolve().relative_to(self.root.resolve()))
